@@ -34,6 +34,7 @@ structure Script where
   pipelining : Bool := true
   offersTls : Bool := false
   eightBit : Bool := true
+  smtputf8 : Bool := true
   starttls : Out := .code 220
   ehlo2 : Out := .code 250
   auth : Out := .code 235
@@ -51,6 +52,7 @@ structure Cfg where
   credentials : Bool := false
   body8bit : Bool := false
   hasEncoder : Bool := false
+  utf8Addr : Bool := false          -- the sender or a recipient address is not ASCII
 deriving Repr
 
 def isError (c : Nat) : Bool := c / 100 == 4 || c / 100 == 5
@@ -128,7 +130,7 @@ def mergeLmtp : List Cls → List Nat → List Cls
 
 /-- `_deliver` for one envelope with `n = s.rcpts.length` recipients. -/
 def deliver (cfg : Cfg) (s : Script) : Result :=
-  if !s.eightBit && cfg.body8bit && !cfg.hasEncoder then .raised .perm      -- 554 Conversion not allowed
+  if (!s.eightBit && cfg.body8bit && !cfg.hasEncoder) || (cfg.utf8Addr && !s.smtputf8) then .raised .perm   -- 554 Conversion not allowed / 553 Address requires SMTPUTF8
   else
     match readCode s.mail with
     | none => .raised .temp
